@@ -14,6 +14,7 @@ import (
 	"strconv"
 	"strings"
 	"sync"
+	"sync/atomic"
 	"testing"
 	"time"
 
@@ -51,6 +52,9 @@ type gbCase struct {
 	// StopRace: the owner of an in-process server calls GRPCServer.Stop at the moment the
 	// controller's Shutdown handler (hook grpc.shutdown) is about to do the same
 	StopRace bool `json:"stop_race,omitempty"`
+	// CloseRace: n goroutines close the host's protocol client at once; they are held at the entry of
+	// GRPCBroker.Close (hook grpc.broker.close) until all have arrived
+	CloseRace int `json:"close_race,omitempty"`
 }
 
 type gbEstObs struct {
@@ -152,6 +156,39 @@ func runGBCase(c gbCase, bin, tmp string, t *testing.T) map[string]interface{} {
 		defer plugin.VerifSetHook(nil)
 	}
 
+	if c.CloseRace > 0 && c.Pair == "inproc" {
+		var arrived int32
+		all := make(chan struct{})
+		var once sync.Once
+		n := int32(c.CloseRace)
+		plugin.VerifSetHook(func(ev string, obj interface{}, a, b int64) {
+			if ev != "grpc.broker.close" || ptrEq(obj, pluginBrokerPtr(pluginBroker)) {
+				return
+			}
+			if atomic.AddInt32(&arrived, 1) >= n {
+				once.Do(func() { close(all) })
+			}
+			select {
+			case <-all:
+			case <-time.After(500 * time.Millisecond):
+			}
+		})
+		var wg sync.WaitGroup
+		for i := 0; i < c.CloseRace; i++ {
+			wg.Add(1)
+			go func() {
+				defer wg.Done()
+				inprocClient.Close()
+			}()
+		}
+		wg.Wait()
+		inprocServer.Stop()
+		cleanup = func() {}
+		out["ests"] = []gbEstObs{}
+		out["close_race"] = true
+		out["listener_before_ack"] = true
+		return out
+	}
 	if c.StopRace && c.Pair == "inproc" {
 		atShutdown := make(chan struct{})
 		var once sync.Once
@@ -434,3 +471,13 @@ func TestGRPCBrokerCases(t *testing.T) {
 	close(ch)
 	wg.Wait()
 }
+
+// pluginBrokerPtr / ptrEq: the close-race scenario only holds callers of the host-side broker's Close
+func pluginBrokerPtr(b vp.BrokerAPI) interface{} {
+	if gb, ok := b.(vp.GRPCAPI); ok {
+		return gb.B
+	}
+	return nil
+}
+
+func ptrEq(a, b interface{}) bool { return a != nil && b != nil && a == b }
